@@ -7,6 +7,6 @@ command -v java >/dev/null
 /venv/bin/python -c "import yaml"
 /venv/bin/python -c "import sys; sys.path.insert(0,'/repo'); import shroud"
 for f in specs/*.tla; do :; done
-(cd specs && for m in LineWrap Splicer EnumValues DeclGrammar DeclMutate Attrs Naming WrapSelect Scope Registry Lockstep CallBridge StrXfer BindC Capsule PyDispatch LuaDispatch LibGen LibGenPairs EmitOrder Trace_EmitOrder StmtTree MC_StmtTree Trace_StmtTree Symtab MC_Symtab Trace_Symtab Members MC_Members Trace_Members; do tla-sany $m.tla 2>&1 | grep -q "Semantic errors\|Cannot find\|\*\*\* Errors" && { echo "SANY failed on $m"; exit 1; }; done; true)
+(cd specs && for m in LineWrap Splicer EnumValues DeclGrammar DeclMutate Attrs Naming WrapSelect Scope Registry Lockstep CallBridge StrXfer BindC Capsule PyDispatch LuaDispatch LibGen LibGenPairs EmitOrder Trace_EmitOrder StmtTree MC_StmtTree Trace_StmtTree Symtab MC_Symtab Trace_Symtab Members MC_Members Trace_Members PyOwn MC_PyOwn Trace_PyOwn; do tla-sany $m.tla 2>&1 | grep -q "Semantic errors\|Cannot find\|\*\*\* Errors" && { echo "SANY failed on $m"; exit 1; }; done; true)
 mkdir -p evidence
 echo setup ok
